@@ -157,6 +157,9 @@ func (env *SpecEnv) eval(x *SExpr) Value {
 			i := env.evalInt(x.Args[1])
 			return e.loadLoc(env.state(), sliceElemLoc(base, i))
 		case SpecTerm:
+			if b.T.Sort == SStr {
+				return mathInt(strByte(b.T, env.evalInt(x.Args[1])))
+			}
 			if b.T.Sort.Kind != KArray {
 				env.fail(x, "index of non-array spec term")
 			}
@@ -581,6 +584,10 @@ func (env *SpecEnv) call(x *SExpr) Value {
 			if b.T.Sort == SStr {
 				return mathInt(strLen(b.T))
 			}
+		case SpecTerm:
+			if b.T.Sort == SStr {
+				return mathInt(strLen(b.T))
+			}
 		}
 		env.fail(x, "len of non-sequence")
 	case "min":
@@ -650,6 +657,10 @@ func (env *SpecEnv) call(x *SExpr) Value {
 			cs = append(cs, mkEq(asTerm(el), mkInt64(int64(x.Args[2].Str[q]))))
 		}
 		return boolVal(mkAnd(cs...))
+	case "mkslice":
+		// mkslice(arr, off, len): a []byte slice value from its components (cap = len)
+		a, o, l := env.evalInt(x.Args[0]), env.evalInt(x.Args[1]), env.evalInt(x.Args[2])
+		return SliceVal{a, o, l, l, types.NewSlice(types.Typ[types.Uint8])}
 	case "raw":
 		// raw(s, x): element at absolute index x of the backing array of slice s
 		sv, ok := toSlice(env.eval(x.Args[0]))
@@ -682,7 +693,13 @@ func (env *SpecEnv) call(x *SExpr) Value {
 		if reprOf(et) != rInt {
 			env.fail(x, "inner() needs a slice of integers")
 		}
-		return SpecTerm{mkSelect(env.state().memMap(memFamily(et), SInt), sv.Arr)}
+		arrT := mkSelect(env.state().memMap(memFamily(et), SInt), sv.Arr)
+		if lo, hi, ok := intRange(et); ok && env.state().quiet == 0 {
+			// type invariant of memory: every cell of an integer array holds a value of its element type
+			k := mkVar("x!inner", SInt)
+			env.state().assume(mkForall([]*Term{k}, mkAnd(mkLe(mkBig(lo), mkSelect(arrT, k)), mkLe(mkSelect(arrT, k), mkBig(hi))), mkSelect(arrT, k)))
+		}
+		return SpecTerm{arrT}
 	case "base":
 		sv, ok := toSlice(env.eval(x.Args[0]))
 		if !ok {
